@@ -7,7 +7,7 @@ import vlib, txnlab
 from vlib import Verdict
 
 PID = "C03"
-FAULTS = ["dropreq", "dropresp", "regionerr:NotLeader", "regionerr:EpochNotMatch", "regionerr:ServerIsBusy", "regionerr:StaleCommand"]
+FAULTS = ["dropreq", "dropresp", "cancelresp", "regionerr:NotLeader", "regionerr:EpochNotMatch", "regionerr:ServerIsBusy", "regionerr:StaleCommand"]
 HOOKS = ["split", "expire_resolve", "push_min_commit", "reader_clockjump"]
 
 
